@@ -44,6 +44,7 @@ def respell(tokens, rng, kwcase=False, tkwcase=False, idcase=False, trivia=False
     out = []
     first = True
     pool = TRIVIA + (TRIVIA_FF if ff else [])
+    prev_text, prev_kind = "", ""
     for text, kind, tight in tokens:
         if kind == "endif;":
             # the optional semicolon after END_IF
@@ -59,14 +60,44 @@ def respell(tokens, rng, kwcase=False, tkwcase=False, idcase=False, trivia=False
             text = recase(rng, text)
         if not first and not tight:
             if trivia:
-                out.append(pool[rng.randrange(len(pool))])
+                if rng.random() < 0.2 and may_touch(prev_text, prev_kind, text, kind):
+                    pass        # no trivia at all: white space next to punctuation is optional
+                else:
+                    out.append(pool[rng.randrange(len(pool))])
             else:
                 out.append(" ")
-        elif not first and tight and False:
-            pass
         out.append(text)
+        prev_text, prev_kind = text, kind
         first = False
     return "".join(out)
+
+
+# pairs of punctuation that would read as another token when written without white space between them
+GLUED = {"(*", "*)", "//", "**", ":=", "<=", "<>", ">=", "=>", "..", "...", "(**", "**)"}
+
+
+def may_touch(a, akind, b, bkind):
+    """True when token b may directly follow token a: one of them is punctuation and the two do not
+    run into one another (another token, a comment opener, a number with a point)."""
+    if not a or not b:
+        return False
+    pa = akind == "op" and not (a[-1].isalnum() or a[-1] in "_'\"")
+    pb = bkind == "op" and not (b[0].isalnum() or b[0] in "_'\"")
+    if not (pa or pb):
+        return False
+    if a[-1] + b[0] in GLUED or a[-2:] + b[0] in GLUED or a[-1] + b[:2] in GLUED:
+        return False
+    if (a[-1].isdigit() and b[0] == ".") or (a[-1] == "." and b[0].isdigit()):
+        return False
+    if a[-1] in "+-" and b[0] in "+-":
+        return False
+    if a[-1] in "+-" and b[0].isdigit():
+        # signs that belong to a literal are marked tight by the generator and never get here; what gets here is an
+        # operator of an expression in front of a number: '- 2' and '-2', 'a - 2' and 'a -2' are the same expression
+        return akind == "op" and bkind == "lit"
+    if a[-1] == "#" or b[0] == "#" or a[-1] == "%" or b[0] == "%":
+        return False
+    return True
 
 
 OSCAT_OPEN = "(*@KEY@:DESCRIPTION*)"
